@@ -76,6 +76,21 @@ CHECKS = {
             "and judges every answer of the real space classes case by case.",
             "probes restricted to inputs whose verdict the property text fixes; continuous samples are abstracted soundly for membership.",
             "DESIGN.md section 4 C14"),
+    "C15": ("TLA+ DiscreteLaws spec (exact rationals): TLC exhaustive + every real discrete-law case judged by TLC; continuous laws as atoms",
+            "DiscreteLaws.tla defines categorical / Bernoulli / product laws and masking in exact rational arithmetic; TLC checks "
+            "total mass, proportional renormalisation and mode on all small weight vectors and masks, and judges the probabilities, "
+            "modes, samples and product structure of the real Categorical / Bernoulli / MultiCategorical classes case by case. "
+            "Continuous laws (Normal, diagonal normal, squashed variants) contribute harness-evaluated identities only.",
+            "NOT decided: integrals of continuous densities incl. the squashing Jacobian, goodness of fit of samples, entropy = -E[log p] "
+            "for continuous laws (no state-machine content).",
+            "DESIGN.md section 4 C15, section 5"),
+    "C16": ("TLA+ DiscreteLaws spec: TLC exhaustive over weights x masks + real masked distributions and production policies judged by TLC",
+            "TLC checks on all weight vectors (n <= 4) and all non-empty masks that masking zeroes masked actions, renormalises "
+            "proportionally and keeps the mode allowed; real Categorical/Bernoulli/MultiCategorical.mask and the production MLP "
+            "actor-critic (discrete, multi-discrete, multi-binary) and Q policies (epsilon 0, 0.3, 1; with and without key) are "
+            "exercised under every non-empty mask and judged against it.",
+            "'departs from greedy with probability at most epsilon' for 0 < epsilon < 1 is statistical: only support and the extremes are decided.",
+            "DESIGN.md section 4 C16"),
 }
 
 PENDING_REASON = "check not built yet in this round (planned: see DESIGN.md section 4); not claimed until its machinery exists"
